@@ -1,6 +1,7 @@
 (* C18 -- inconsistent or invalid array descriptions are rejected at open time. *)
 From Coq Require Import ZArith List Bool String Lia.
-From Darr Require Import Base ArrayModel Json Gen_tables.
+From Darr Require Import Base ArrayModel Json Gen_tables Gen_gate.
+From Coq Require Import ZifyBool.
 Import ListNotations.
 Open Scope Z_scope.
 
@@ -54,6 +55,29 @@ Proof.
   - apply Forall_forall. intros x Hx. rewrite forallb_forall in Enp. specialize (Enp x Hx). apply Z.leb_le in Enp. exact Enp.
 Qed.
 Print Assumptions C18_open_sound.
+
+(* The size test as the present source spells it (tie by translation): Gen_gate.size_gate is
+   Array._check_arrayinfoconsistency read from darr/array.py on every run as a function of
+   the shape in the description, the item size of its dtype and the size of the data file.
+   It accepts exactly when the file size EQUALS prod(shape) x item size -- for all shapes,
+   item sizes and file sizes -- and it is the test the model of Array(path) applies.  A
+   loosened comparison (a floor division, an inequality, a tolerance) changes Gen_gate.v
+   and these no longer check. *)
+Theorem C18_size_gate_from_source : forall shape isz fsz,
+  size_gate shape isz fsz = true <-> fsz = prodZ shape * isz.
+Proof. intros shape isz fsz. unfold size_gate. split; intro H; lia. Qed.
+Print Assumptions C18_size_gate_from_source.
+
+Theorem C18_model_gate_is_source_gate : forall ds (bs : list Z),
+  size_gate (d_shape ds) (itemsize (d_nt ds)) (Z.of_nat (List.length bs)) =
+  (Z.of_nat (List.length bs) =? prodZ (d_shape ds) * itemsize (d_nt ds)).
+Proof. intros ds bs. unfold size_gate. lia. Qed.
+Print Assumptions C18_model_gate_is_source_gate.
+
+Example C18_size_gate_example :
+  size_gate [2; 3] 4 24 = true /\ size_gate [2; 3] 4 25 = false /\ size_gate [2; 3] 4 27 = false /\
+  size_gate [0; 3] 8 0 = true /\ size_gate [0; 3] 8 1 = false.
+Proof. vm_compute. repeat split. Qed.
 
 (* too short or too long BY ANY AMOUNT is rejected (the test is an equality) *)
 Theorem C18_size_mismatch_rejected : forall f bs m ds hb,
